@@ -1,6 +1,11 @@
 (* C16 — what the property demands of the three stream wrappers, written from the property text
-   (not from the code), over the script view of the sources. *)
-From Kit Require Export Lib.Reader.
+   (not from the code), over the script view of the sources (C16/ReaderX.v).
+
+   A source "ends" the way its script says ([end_of]): with io.EOF, or with its first failure,
+   WHOSE IDENTITY MATTERS: "yields the source(s) unchanged" includes handing the consumer the
+   source's own error - an error that merely wraps io.EOF is a failure, not the end of the
+   stream, and a stream cut by it must not be mistaken for a complete one. *)
+From Kit Require Export C16.ReaderX.
 
 (* LimitReadCloser(src, n), consumed to its end - by whatever path: Read loop, io.ReadAll,
    io.Copy, ... - and then closed (Close called one or more times).
@@ -16,8 +21,7 @@ Definition limit_spec (n : Z) (s : list rd) (out : list N) (e : err)
   let d := data_of s in
   if (Z.of_nat (length d) >? n)%Z
   then out = firstn (Z.to_nat n) d /\ e = ETooLarge /\ ((0 <= n)%Z -> closes_before = 1)
-  else if ends_eof s then out = d /\ e = EEOF
-  else out = d /\ e = EFail.
+  else out = d /\ e = end_of s.
 
 Definition limit_oracle (n : Z) (s : list rd) (out : list N) (e : err)
            (closes_before closes_after : nat) : bool :=
@@ -26,17 +30,28 @@ Definition limit_oracle (n : Z) (s : list rd) (out : list N) (e : err)
   if (Z.of_nat (length d) >? n)%Z
   then eqb_listN out (firstn (Z.to_nat n) d) && err_eqb e ETooLarge &&
        ((n <? 0)%Z || Nat.eqb closes_before 1)
-  else if ends_eof s then eqb_listN out d && err_eqb e EEOF
-  else eqb_listN out d && err_eqb e EFail.
+  else eqb_listN out d && err_eqb e (end_of s).
 
-(* MultiReaderCloser(srcs...): expected bytes and final error. *)
+(* ... when the consumer stopped reading before it was given any error, and then called Close:
+   what it got is a prefix of the source of at most n bytes, and the source is closed once. *)
+Definition limit_stop_spec (n : Z) (s : list rd) (out : list N) (closes_after : nat) : Prop :=
+  closes_after = 1 /\ (exists rest, data_of s = out ++ rest) /\
+  (Z.of_nat (length out) <= Z.max 0 n)%Z.
+
+Definition limit_stop_oracle (n : Z) (s : list rd) (out : list N) (closes_after : nat) : bool :=
+  Nat.eqb closes_after 1 && prefixb out (data_of s) && (Z.of_nat (length out) <=? Z.max 0 n)%Z.
+
+(* MultiReaderCloser(srcs...): expected bytes and final error: the concatenation up to and
+   including the first source that does not end with io.EOF, and that source's own error. *)
 Fixpoint multi_expect (srcs : list (list rd * bool)) : list N * err :=
   match srcs with
   | [] => ([], EEOF)
   | sc :: t =>
       let s := fst sc in
-      if ends_eof s then (data_of s ++ fst (multi_expect t), snd (multi_expect t))
-      else (data_of s, EFail)
+      match end_of s with
+      | EEOF => (data_of s ++ fst (multi_expect t), snd (multi_expect t))
+      | e => (data_of s, e)
+      end
   end.
 
 Definition expected_closes (srcs : list (list rd * bool)) : list nat :=
@@ -56,6 +71,16 @@ Definition multi_oracle (srcs : list (list rd * bool)) (out : list N) (e : err)
   eqb_listN out (fst (multi_expect srcs)) && err_eqb e (snd (multi_expect srcs)) &&
   eqb_listnat closes_after (expected_closes srcs).
 
+(* ... when the consumer stopped early and then called Close: a prefix of the stream, and every
+   closable source - finished or not - closed exactly once. *)
+Definition multi_stop_spec (srcs : list (list rd * bool)) (out : list N)
+           (closes_after : list nat) : Prop :=
+  (exists rest, fst (multi_expect srcs) = out ++ rest) /\ closes_after = expected_closes srcs.
+
+Definition multi_stop_oracle (srcs : list (list rd * bool)) (out : list N)
+           (closes_after : list nat) : bool :=
+  prefixb out (fst (multi_expect srcs)) && eqb_listnat closes_after (expected_closes srcs).
+
 (* TeeReadCloser(src, w): [budget] = number of writes the writer accepts before failing
    ([None] = never fails). *)
 Definition tee_spec (s : list rd) (budget : option nat) (out : list N) (e : err)
@@ -63,10 +88,8 @@ Definition tee_spec (s : list rd) (budget : option nat) (out : list N) (e : err)
   written = out /\ src_closes = 1 /\ w_closes = 1 /\
   (exists rest, data_of s = out ++ rest) /\
   match e with
-  | EEOF => out = data_of s /\ ends_eof s = true
-  | EFail => out = data_of s /\ ends_eof s = false
   | EWriter => budget <> None
-  | _ => False
+  | _ => out = data_of s /\ e = end_of s
   end.
 
 Definition tee_oracle (s : list rd) (budget : option nat) (out : list N) (e : err)
@@ -74,8 +97,14 @@ Definition tee_oracle (s : list rd) (budget : option nat) (out : list N) (e : er
   eqb_listN written out && Nat.eqb src_closes 1 && Nat.eqb w_closes 1 &&
   prefixb out (data_of s) &&
   match e with
-  | EEOF => eqb_listN out (data_of s) && ends_eof s
-  | EFail => eqb_listN out (data_of s) && negb (ends_eof s)
   | EWriter => match budget with None => false | Some _ => true end
-  | _ => false
+  | _ => eqb_listN out (data_of s) && err_eqb e (end_of s)
   end.
+
+(* ... when the consumer stopped early and then called Close *)
+Definition tee_stop_spec (s : list rd) (out written : list N) (src_closes w_closes : nat) : Prop :=
+  written = out /\ src_closes = 1 /\ w_closes = 1 /\ exists rest, data_of s = out ++ rest.
+
+Definition tee_stop_oracle (s : list rd) (out written : list N) (src_closes w_closes : nat)
+  : bool :=
+  eqb_listN written out && Nat.eqb src_closes 1 && Nat.eqb w_closes 1 && prefixb out (data_of s).
